@@ -262,6 +262,92 @@ theorem labels_discard_only_drops_refs (fs : FS) (s : Service) :
   unfold resolveServiceLabels
   cases loadLabelFiles fs s.labelFiles [] <;> rfl
 
+/-! ## all services of a project -/
+
+/-- **project_env_ok.**  `WithServicesEnvironmentResolved` succeeds exactly with the per-service results: same service
+    names in the same positions, each service resolved on its own (no state shared between services). -/
+theorem project_env_ok (penv : List (Key × Str)) (fs : FS) (discard : Bool) (svcs r : List (Str × Service))
+    (h : resolveProjectEnv penv fs discard svcs = .ok r) :
+    svcs.map (fun p => (p.1, resolveServiceEnv penv fs discard p.2)) = r.map (fun p => (p.1, Except.ok p.2)) :=
+  collect_ok _ _ h
+
+/-- it fails only with the error of some service (which one Go reports depends on map order) -/
+theorem project_env_err (penv : List (Key × Str)) (fs : FS) (discard : Bool) (svcs : List (Str × Service))
+    (es : List Err) (h : resolveProjectEnv penv fs discard svcs = .error es) :
+    es ≠ [] ∧ ∀ e ∈ es, ∃ p ∈ svcs, resolveServiceEnv penv fs discard p.2 = .error e := by
+  obtain ⟨hne, hall⟩ := collect_err _ _ h
+  refine ⟨hne, fun e he => ?_⟩
+  obtain ⟨n, hn⟩ := hall e he
+  obtain ⟨p, hp, hpe⟩ := List.mem_map.1 hn
+  simp only [Prod.mk.injEq] at hpe
+  exact ⟨p, hp, hpe.2⟩
+
+theorem project_labels_ok (fs : FS) (discard : Bool) (svcs r : List (Str × Service))
+    (h : resolveProjectLabels fs discard svcs = .ok r) :
+    svcs.map (fun p => (p.1, resolveServiceLabels fs discard p.2)) = r.map (fun p => (p.1, Except.ok p.2)) :=
+  collect_ok _ _ h
+
+/-! ## Go map iteration order -/
+
+/-- `OverrideBy` ranges over a Go map: whatever order the entries come in, the result is pointwise the same -/
+theorem override_order_independent {β : Type} (m other other' : List (Key × β)) (hd : Distinct other)
+    (hp : other.Perm other') (k : Key) :
+    lookup k (overrideBy m other) = lookup k (overrideBy m other') := by
+  rw [lookup_overrideBy k m other hd, lookup_overrideBy k m other' (distinct_perm _ _ hd hp), lookup_perm k other other' hd hp]
+
+/-- **env_order_independent.**  The result does not depend on the order in which the `environment` map and the
+    project environment are listed (Go iterates both in arbitrary order): same success, same value at every key. -/
+theorem env_order_independent (penv penv' : List (Key × Str)) (fs : FS) (discard : Bool) (s s1 s' : Service)
+    (hd : Distinct s.environment) (hdp : Distinct penv)
+    (hpe : s.environment.Perm s1.environment) (hpp : penv.Perm penv') (hfiles : s1.envFiles = s.envFiles)
+    (h : resolveServiceEnv penv fs discard s = .ok s') :
+    ∃ s1', resolveServiceEnv penv' fs discard s1 = .ok s1' ∧
+      ∀ k, lookup k s1'.environment = lookup k s'.environment := by
+  have hl : ∀ n, lookup n penv = lookup n penv' := fun n => lookup_perm n penv penv' hdp hpp
+  have hd1 : Distinct s1.environment := distinct_perm _ _ hd hpe
+  unfold resolveServiceEnv at h ⊢
+  rw [hfiles, ← loadEnvFiles_congr_penv penv penv' fs hl]
+  cases hacc : loadEnvFiles penv fs s.envFiles [] with
+  | error e => rw [hacc] at h; cases h
+  | ok acc =>
+    rw [hacc] at h
+    simp only [Except.ok.injEq] at h
+    subst h
+    refine ⟨_, rfl, fun k => ?_⟩
+    simp only
+    rw [lookup_overrideBy k _ _ (distinct_resolveMWE _ _ hd1), lookup_overrideBy k _ _ (distinct_resolveMWE _ _ hd),
+      lookup_resolveMWE, lookup_resolveMWE, ← lookup_perm k _ _ hd hpe, hl k]
+
+/-! ## value-less entries resolved while loading -/
+
+/-- **load_env_precedence.**  Through a whole load (sequence or mapping form of `environment`, with or without
+    normalization, the two loader stages that pre-resolve value-less entries included) the final environment is
+    again exactly `finalEnv` of the YAML `environment` as written. -/
+theorem load_env_precedence (cfg : LoadCfg) (penv : List (Key × Str)) (fs : FS) (y : YEnv) (s s' : Service)
+    (hpenv : NoEqKeys penv) (hres : cfg.skipResolveEnvironment = false)
+    (h : loadServiceEnv cfg penv fs y s = .ok s') (k : Key) :
+    lookup k s'.environment = finalEnv penv (envContents fs s.envFiles) (decodeEnv y) k := by
+  unfold loadServiceEnv at h
+  simp only [hres, Bool.false_eq_true, if_false] at h
+  rw [env_precedence penv fs cfg.discard _ s' (distinct_decodeEnv' cfg penv y) h k]
+  simp only
+  rw [finalEnv_eq_rv, finalEnv_eq_rv, loadedEnv_rv cfg penv hpenv y k]
+
+/-- even when the Project method is skipped, a whole load with normalization has resolved the value-less entries -/
+theorem load_valueless_resolved_by_normalize (cfg : LoadCfg) (penv : List (Key × Str)) (y : YEnv) (k : Key)
+    (hpenv : NoEqKeys penv) (hn : cfg.skipNormalization = false) :
+    lookup k (loadedEnv cfg penv y) = (lookup k (decodeEnv y)).map (rv penv k) := by
+  unfold loadedEnv
+  simp only [hn, Bool.false_eq_true, if_false]
+  cases y with
+  | absent => rfl
+  | map kvs => simp only [resolveSeqEnv]; rw [lookup_decode_normalize]
+  | list items =>
+    rw [resolveSeqEnv_eq_normalize penv hpenv, lookup_decode_normalize, lookup_decode_normalize]
+    cases lookup k (decodeEnv (YEnv.list items)) with
+    | none => rfl
+    | some v => simp [rv_idem]
+
 /-! ## non-vacuity: a concrete project on which the hypotheses above hold and the layers all matter -/
 namespace Example
 
@@ -331,6 +417,19 @@ example : resolveServiceLabels fs0 false { s0 with labelFiles := [['f', '1'], ['
 example : resolveServiceEnv penv0 fs0 false { s0 with envFiles := [⟨['d'], false, []⟩] } = .error .read := rfl
 example : resolveServiceEnv penv0 fs0 false { s0 with envFiles := [⟨['f', '1'], false, ['r', 'a', 'w']⟩] } = .error .format := rfl
 example : parseLines (fun _ => none) [.assign ['A'] [], .bad] [] = .error .parse := rfl
+
+/-- hypotheses of `load_env_precedence`: `=`-free project keys, a sequence-form `environment` with value-less entries -/
+example : NoEqKeys penv0 ∧ ∃ s', loadServiceEnv ⟨false, false, true⟩ penv0 fs0
+      (.list [.bare ['C'], .bare ['D'], .kv ['E'] ['e']]) s0 = .ok s' ∧
+    lookup ['C'] s'.environment = some (some ['c']) ∧ lookup ['D'] s'.environment = some none := by
+  refine ⟨by unfold NoEqKeys; decide, _, rfl, ?_⟩
+  decide
+
+/-- hypotheses of `env_order_independent`: a genuinely different listing of the same maps -/
+example : Distinct s0.environment ∧ Distinct penv0 ∧
+    s0.environment.Perm [(['E'], some ['e']), (['C'], none), (['D'], none)] := by
+  refine ⟨by decide, by decide, ?_⟩
+  decide
 
 /-- hypothesis of `crossref_chain` / `file_value_chain` / `bare_line_inherits`: a key not mentioned later -/
 example : ¬ Mentions [Line.assign ['X'] []] ['A'] := by
